@@ -105,6 +105,14 @@ def object_cases(ctx):
         objs.append(("m", False, io.model(r, depth=0, nparams=npar, maxvol=4)))
     for bn in [31, 32, 255, 256] + io.BIG_NAME_LENGTHS:
         objs.append(("m", True, io.model(r, depth=1, nparams=2, big_name=bn, maxvol=4)))
+    # key paths that coincide once joined with a separator (lists of names are the keys, not joined strings)
+    hx = io.hexs
+    for sep in [b".", b"/", b":", b"\x00", b",", b"|", b" "]:
+        P = lambda: io.param(r, maxvol=6, nstats=1)
+        objs.append(("m", True, ["[", "p", hx(b"enc" + sep + b"w"), P(), "m", hx(b"enc"), "[", "p", hx(b"w"), P(), "]", "]"]))
+        objs.append(("m", True, ["[", "m", hx(b"a"), "[", "m", hx(b"b" + sep + b"c"), "[", "p", hx(b"x"), P(), "]", "]",
+                                 "m", hx(b"a" + sep + b"b"), "[", "m", hx(b"c"), "[", "p", hx(b"x"), P(), "]", "]", "]"]))
+        objs.append(("m", True, ["[", "m", hx(b""), "[", "p", hx(b"p"), P(), "]", "p", hx(sep + b"p"), P(), "]"]))
     for k in range(6):
         for _ in range(8 if q else 150):
             objs.append(("o", False, [io.optimizer(r, k)]))
